@@ -1,13 +1,20 @@
 import Drivers.Proto
 import St4sd.Model.Validate
+import St4sd.Model.ValidateLoop
 import St4sd.Gen.C11
 /-! Model driver for property C11.
 
 Request `{"op":"validate","doc":{"comps":[{"stage":n,"name":s,"refs":[[stage,name]…],"argRefs":[…],
 "opts":<json>,"vars":[[name,[used…]]…],"uses":[…],"replicate":n|null,"aggregate":bool}…],
-"globals":[[name,[used…]]…]}}`
+"globals":[[name,[used…]]…],
+"stageVars":[[stage,[[name,[used…]]…]]…],"platGlobals":[…],"platStageVars":[…],
+"userFiles":[{"globals":[…],"stages":[[stage,[…]]…]}…],
+"loops":[{"stage":n,"name":s,"inputs":[key…],"bindings":[[key,[stage,name]]…],"loopBindings":[[key,[stage,name]]…],
+"cond":[stage,name],"comps":[{"stage":n,"name":s,"refs":[[stage,name]…],"opts":<json>,"vars":[…],"uses":[…]}…]}…]}}`
+(the last five optional; identifiers inside a loop are relative to its document)
 → `{"accepted":bool,"errors":[kinds…],"nodes":[…],"edges":[[producer,consumer]…]}` (nodes and edges of the
-expanded document); `{"op":"schema-paths"}` → the option paths of the generated schema. -/
+expanded document: main components + iteration 0 of every loop), `"next":[{"nodes":[…],"resolves":bool}…]` (the
+components iteration 1 of each loop adds and whether their references resolve); `{"op":"schema-paths"}` → the option paths of the generated schema. -/
 open Lean Proto St4sd.ValSchema St4sd.Validate
 
 partial def toVal : Json → Val
@@ -24,12 +31,35 @@ def getId (j : Json) : Except String Id := do
   | [s, n] => return ((← s.getNat?), (← n.getStr?).toList)
   | _ => throw "identifier must be [stage, name]"
 
+def getDef (e : Json) : Except String (S × List S) := do
+  let a ← e.getArr?
+  match a.toList with
+  | [n, us] => return ((← n.getStr?).toList, (← (← us.getArr?).toList.mapM (·.getStr?)).map String.toList)
+  | _ => throw "definition must be [name, [used]]"
+
 def getDefs (j : Json) (k : String) : Except String (List (S × List S)) := do
-  (← getArr j k).mapM (fun e => do
+  (← getArr j k).mapM getDef
+
+/-- an optional array field (absent or null = empty) -/
+def optArr (j : Json) (k : String) : Except String (List Json) :=
+  match j.getObjVal? k with
+  | .ok .null => return []
+  | .ok v => do return (← v.getArr?).toList
+  | .error _ => return []
+
+def getOptDefs (j : Json) (k : String) : Except String (List (S × List S)) := do
+  (← optArr j k).mapM getDef
+
+/-- `[[stage, [[name, [used…]]…]]…]` -/
+def getSections (j : Json) (k : String) : Except String (List (Nat × List (S × List S))) := do
+  (← optArr j k).mapM (fun e => do
     let a ← e.getArr?
     match a.toList with
-    | [n, us] => return ((← n.getStr?).toList, (← (← us.getArr?).toList.mapM (·.getStr?)).map String.toList)
-    | _ => throw "definition must be [name, [used]]")
+    | [s, ds] => return ((← s.getNat?), (← (← ds.getArr?).toList.mapM getDef))
+    | _ => throw "section must be [stage, [definitions]]")
+
+def getUserFile (j : Json) : Except String UserVars := do
+  return { globals := ← getOptDefs j "globals", stages := ← getSections j "stages" }
 
 def getComp (j : Json) : Except String Comp := do
   return { stage := ← getNat j "stage", name := ← getChars j "name",
@@ -41,6 +71,28 @@ def getComp (j : Json) : Except String Comp := do
            aggregate := (match j.getObjVal? "aggregate" with
                          | .ok (.bool b) => b
                          | _ => false) }
+
+def getDoc (dj : Json) : Except String Doc := do
+  return { comps := ← (← getArr dj "comps").mapM getComp, globals := ← getDefs dj "globals",
+           stageVars := ← getSections dj "stageVars", platGlobals := ← getOptDefs dj "platGlobals",
+           platStageVars := ← getSections dj "platStageVars",
+           userFiles := ← (← optArr dj "userFiles").mapM getUserFile }
+
+def getBinds (j : Json) (k : String) : Except String (List (S × Id)) := do
+  (← optArr j k).mapM (fun e => do
+    let a ← e.getArr?
+    match a.toList with
+    | [n, i] => return ((← n.getStr?).toList, (← getId i))
+    | _ => throw "binding must be [key, [stage, name]]")
+
+def getTComp (j : Json) : Except String TComp := do
+  return { stage := ← getNat j "stage", name := ← getChars j "name", refs := ← (← getArr j "refs").mapM getId,
+           opts := toVal (← j.getObjVal? "opts"), vars := ← getDefs j "vars", uses := ← getCharsList j "uses" }
+
+def getLoop (j : Json) : Except String St4sd.Validate.Loop := do
+  return { stage := ← getNat j "stage", name := ← getChars j "name", inputs := ← getCharsList j "inputs",
+           bindings := ← getBinds j "bindings", loopBindings := ← getBinds j "loopBindings",
+           cond := ← getId (← j.getObjVal? "cond"), comps := ← (← getArr j "comps").mapM getTComp }
 
 def idStr (i : Id) : String := s!"stage{i.1}.{String.ofList i.2}"
 
@@ -57,18 +109,36 @@ def errKind : Err → String
   | .inconsistentReplicate _ => "inconsistent-replicate"
   | .duplicateAfterReplication _ => "duplicate-after-replication"
 
+def loopErrKind : LoopErr → String
+  | .missingBinding _ => "loop-missing-binding"
+  | .unknownBindingKey _ => "loop-unknown-binding-key"
+  | .bindingUnknown _ _ => "loop-binding-unknown-component"
+  | .loopBindingUnknown _ _ => "loop-loopbinding-unknown-component"
+  | .conditionUnknown _ => "loop-condition-unknown-component"
+  | .duplicateLooped _ => "loop-duplicate-looped-component"
+
+def pErrKind : PErr → String
+  | .loop _ e => loopErrKind e
+  | .doc e => errKind e
+
 def handle (j : Json) : Except String Json := do
   let op ← getStr j "op"
   match op with
   | "validate" =>
     let dj ← j.getObjVal? "doc"
-    let d : Doc := { comps := ← (← getArr dj "comps").mapM getComp, globals := ← getDefs dj "globals" }
-    let errs := validate St4sd.Gen.C11.convTable St4sd.Gen.C11.componentSchema d
-    let kinds := (errs.map errKind).eraseDups
-    let ed := expandDoc d
+    let p : Package := { main := ← getDoc dj, loops := ← (← optArr dj "loops").mapM getLoop }
+    let errs := validateP St4sd.Gen.C11.convTable St4sd.Gen.C11.componentSchema p
+    let kinds := (errs.map pErrKind).eraseDups
+    let ed := expandDoc (flatten p)
+    -- iteration 1 of every loop: the new components and whether each of their references is a component of
+    -- the document with that iteration added (or a placeholder)
+    let next := p.loops.map (fun l =>
+      jobj [("nodes", jarr ((inst l 1).map (fun c => jstr (idStr c.id)))),
+            ("resolves", jbool ((inst l 1).all (fun c => c.refs.all (refResolves (unrolled p l 1)))))])
     return jobj [("accepted", jbool errs.isEmpty), ("errors", jarr (kinds.map jstr)),
                  ("nodes", jarr ((ids ed).map (fun i => jstr (idStr i)))),
-                 ("edges", jarr ((edges ed).map (fun e => jarr [jstr (idStr e.1), jstr (idStr e.2)])))]
+                 ("edges", jarr ((edges ed).map (fun e => jarr [jstr (idStr e.1), jstr (idStr e.2)]))),
+                 ("next", jarr next)]
   | "schema-paths" =>
     return jobj [("paths", jarr (St4sd.Gen.C11.optionPaths.map (fun p => jarr (p.map jchars))))]
   | _ => throw s!"unknown op {op}"
